@@ -74,6 +74,20 @@ let () = iter_lines (fun line ->
           !t := t';
           Buffer.add_string buf (Printf.sprintf "R%d" (idx it))
         end
+      | 'g' ->
+        let n = size () in
+        if n = 0 then Buffer.add_string buf "G-"
+        else begin
+          let h1 = a1 mod (n + 1) and h2 = a2 mod (n + 1) in
+          let (h1, h2) = if h1 > h2 then (h2, h1) else (h1, h2) in
+          let (t', it) = remove_range !(!t) (nat h1) (nat h2) in
+          !t := t';
+          Buffer.add_string buf (Printf.sprintf "G%d" (idx it))
+        end
+      | 'k' when multi ->
+        let (t', n) = remove_key_multi lin !(!t) (z_of_int a1) in
+        !t := t';
+        Buffer.add_string buf (Printf.sprintf "K%d" (int n))
       | 'k' when not multi ->
         let (t', n) = remove_key lin !(!t) (z_of_int a1) in
         !t := t';
